@@ -38,6 +38,9 @@ CHECKS = {
     "C12": ("exploration", "crash oracle over ASan+UBSan CLI executions (signal / sanitizer report / raw-exception text / extra diagnostic lines) on a union workload: hostile edge-value templates, generated classical, quantum and class programs",
             "Every accepted program executed ended with status 0 or one 'Runtime error' diagnostic; no signal, no ASan report, no crash-class UBSan report, no raw C++ exception text.",
             "A clean sanitizer run is not memory safety (intra-object overflows, reuse after quarantine are invisible); value-UB is reported, not judged.", "DESIGN.md 3/C12"),
+    "C08": ("exploration", "reference-model differential over traced class programs: every constructor, field initialiser, method and destructor echoes a tag; the trace is compared with a model of the documented object-model rules (ASan+UBSan CLI, collections masked)",
+            "Every generated class program printed exactly the trace the reference model of the documented rules predicts (construction order, virtual dispatch, super calls, static overload choice, statics, generic specialisations, destructor order and timing).",
+            "Reference = vlib/gen_classes.py written from docs/bloch_class_system.md; single-reference objects; bag comparison for same-scope destructor order.", "DESIGN.md 3/C08"),
 }
 
 NOT_YET = {}
